@@ -440,7 +440,10 @@ func (s *State) evalDelete(node ast.Node) object.Object {
 		return s.deleteMapEntry(idxE, index)
 	case token.LBRACKET:
 		// Map/array [] index
-		idxE := node.(*ast.IndexExpression)
+		idxE, ok := node.(*ast.IndexExpression)
+		if !ok { // e.g. an array literal: del([1])
+			return s.NewError("delete not supported on " + node.Value().DebugString())
+		}
 		index := s.Eval(idxE.Index)
 		if index.Type() == object.ERROR {
 			return index
